@@ -69,14 +69,35 @@ int64_t evaluate_array_ref(
     }
 
     // 多次元メンバ配列アクセスの処理: obj.member[i][j]
-    if (node->left && node->left->node_type == ASTNodeType::AST_ARRAY_REF &&
-        node->left->left &&
-        node->left->left->node_type == ASTNodeType::AST_MEMBER_ACCESS) {
+    // Three and more dimensions (obj.member[i][j][k]...): the reference
+    // whose base is the member access is the innermost AST_ARRAY_REF of the
+    // chain.  The deeper form is only taken for a plain `variable.member`.
+    const ASTNode *member_base_ref = node->left.get();
+    {
+        const ASTNode *innermost = member_base_ref;
+        while (innermost &&
+               innermost->node_type == ASTNodeType::AST_ARRAY_REF &&
+               innermost->left &&
+               innermost->left->node_type == ASTNodeType::AST_ARRAY_REF) {
+            innermost = innermost->left.get();
+        }
+        if (innermost != member_base_ref && innermost->left &&
+            innermost->left->node_type == ASTNodeType::AST_MEMBER_ACCESS &&
+            innermost->left->left &&
+            innermost->left->left->node_type == ASTNodeType::AST_VARIABLE) {
+            member_base_ref = innermost;
+        }
+    }
+
+    if (member_base_ref &&
+        member_base_ref->node_type == ASTNodeType::AST_ARRAY_REF &&
+        member_base_ref->left &&
+        member_base_ref->left->node_type == ASTNodeType::AST_MEMBER_ACCESS) {
 
         debug_msg(DebugMsgId::EXPR_EVAL_MULTIDIM_MEMBER_ARRAY_ACCESS, "");
         // obj.member[i][j] の場合
-        std::string obj_name = node->left->left->left->name;
-        std::string member_name = node->left->left->name;
+        std::string obj_name = member_base_ref->left->left->name;
+        std::string member_name = member_base_ref->left->name;
         debug_msg(DebugMsgId::EXPR_EVAL_MEMBER_ACCESS_DETAILS, obj_name.c_str(),
                   member_name.c_str());
 
